@@ -46,9 +46,15 @@ func bpNew(t []string) *bpStack {
 // plainFs hides every optional interface of the wrapped filesystem (Lstater, Linker, …).
 type plainFs struct{ afero.Fs }
 
-func (s *bpStack) real(name string) string {
-	parts := append(append([]string{}, s.roots...), name)
-	return filepath.Join(parts...)
+// real: what the source is asked for — each layer, innermost first, joins its cleaned root in front
+func (s *bpStack) real(name string) string { return c09Real(s.roots, name) }
+
+func c09Real(roots []string, name string) string {
+	p := name
+	for i := len(roots) - 1; i >= 0; i-- {
+		p = filepath.Join(filepath.Clean(roots[i]), p)
+	}
+	return p
 }
 
 func c09RunImpl(c corr.Case) []string {
@@ -99,7 +105,8 @@ func c09Oracle(c corr.Case, impl []string) (string, int) {
 			}
 			continue
 		case t[0] == "fullpath":
-			want := "str=" + corr.HexS(st.real(string(corr.UnHex(t[1]))))
+			// "the joined path": filepath.Join of the roots as given and the name
+			want := "str=" + corr.HexS(filepath.Join(append(append([]string{}, st.roots...), string(corr.UnHex(t[1])))...))
 			if impl[i] != want {
 				return fmt.Sprintf("FullBaseFsPath = %s, joined roots give %s", impl[i], want), i
 			}
@@ -121,9 +128,18 @@ func c09Oracle(c corr.Case, impl []string) (string, int) {
 		if t[0] == "h.name" && strings.HasPrefix(want, "str=") {
 			// files report their names relative to the root
 			full := string(corr.UnHex(strings.TrimPrefix(want, "str=")))
-			rel := strings.TrimPrefix(full, filepath.Join(st.roots...))
-			if filepath.Join(st.roots...) == "/" {
+			R := c09Real(st.roots, "")
+			var rel string
+			switch {
+			case full == R || full == "/":
+				// the root directory itself: "" or the separator, depending on the root's spelling — left to the model
+				continue
+			case R == "/":
 				rel = full
+			case R == ".":
+				rel = "/" + full
+			default:
+				rel = strings.TrimPrefix(full, R)
 			}
 			want = "str=" + corr.HexS(rel)
 		}
@@ -138,15 +154,19 @@ var c09Roots = [][]string{
 	{"bp", "/base"}, {"bp", "/base/"}, {"bp", "/x/../base//sub/."}, {"bp", "/"}, {"bp", "//deep/er/root"},
 	{"bpnest", "/base", "/sub"}, {"bpnest", "/base/", "/sub/inner/"}, {"bpnest", "/", "/base"}, {"bpnest", "/base", "/"},
 	{"bpnl", "/base"}, {"bpnlnest", "/base", "/sub"},
+	// relative roots: the working directory itself, below it, above it
+	{"bp", "."}, {"bp", ""}, {"bp", "rel"}, {"bp", "./rel/x/.."}, {"bp", ".."}, {"bp", "../up"},
+	{"bpnest", "rel", "sub"}, {"bpnest", ".", "sub"}, {"bpnest", "rel", "."}, {"bpnest", "/base", "sub"}, {"bpnest", "..", "in"},
 }
 
 // a name that leaves the innermost root by ".." and comes back in by naming the root again
 func c09Reenter(root []string, sp string) string {
 	inner := filepath.Clean(root[len(root)-1])
-	if inner == "/" {
+	if inner == "/" || inner == "." || inner == ".." || strings.HasPrefix(inner, "../") {
 		return ""
 	}
-	return strings.Repeat("../", strings.Count(inner, "/")) + strings.TrimPrefix(inner, "/") + "/" + strings.TrimPrefix(sp, "/")
+	n := len(strings.Split(strings.Trim(inner, "/"), "/"))
+	return strings.Repeat("../", n) + strings.TrimPrefix(inner, "/") + "/" + strings.TrimPrefix(sp, "/")
 }
 
 func c09Header(root []string) string {
@@ -160,7 +180,7 @@ func c09Header(root []string) string {
 func c09Wrap(root []string, prog corr.Case, r *corr.Rand) corr.Case {
 	lines := []string{c09Header(root)}
 	// the root directory itself must exist in the source
-	full := filepath.Join(root[1:]...)
+	full := c09Real(root[1:], "")
 	lines = append(lines, "src.mkdirall "+corr.HexS(full)+" 493")
 	nh := 0
 	for _, l := range prog.Lines[1:] {
@@ -209,7 +229,7 @@ func c09Exhaustive(tier string) []corr.Case {
 	h := corr.HexS
 	var cases []corr.Case
 	for _, root := range c09Roots {
-		full := filepath.Join(root[1:]...)
+		full := c09Real(root[1:], "")
 		// (the last three: in-root names whose first element merely BEGINS with dots)
 		sps := []string{"/d/f", "d/f", "/d//f", "/./d/f", "/d/x/../f", "//d/f", "/..data/f", "/.../f", "/.hidden/..f"}
 		if re := c09Reenter(root, "d/f"); re != "" {
